@@ -84,7 +84,7 @@ Fixpoint pfix (fl : bool) (t : ntree) : Prop :=
   | NPre _ d _ a => pfix (definition_eqb d D_Access) a
   | NSuf _ _ _ a => pfix fl a
   | NBin _ d _ l r => pfix fl l /\ pfix (definition_eqb d D_Access) r
-  | NGroup _ _ a => pfix false a
+  | NGroup _ _ _ a => pfix false a
   end.
 
 Definition aflag (fs : list frame) : bool :=
@@ -101,10 +101,10 @@ Definition state_ok (st : spine_state) : Prop :=
 
 Lemma plug_ok f r t : frames_ok (f :: r) -> pfix (aflag (f :: r)) t -> pfix (aflag r) (plug f t).
 Proof.
-  intros [Hf _] Ht. destruct f as [i d k l|i d k|i k]; cbn [plug pfix aflag frame_def] in *.
+  intros [Hf _] Ht. destruct f as [i d k l|i d k|b i k]; cbn [plug pfix aflag frame_def] in *.
   - split; assumption.
   - exact Ht.
-  - exact Ht.
+  - destruct b; exact Ht.
 Qed.
 
 Lemma pop_ok d : forall fs t fs' t', frames_ok fs -> pfix (aflag fs) t -> pop d fs t = (fs', t') ->
@@ -117,14 +117,14 @@ Proof.
     + apply (IH _ _ _ (proj2 Hf) (plug_ok _ _ _ Hf Ht) Hp).
 Qed.
 
-Lemma close_group_ok : forall fs t fs' t', frames_ok fs -> pfix (aflag fs) t -> close_group fs t = Some (fs', t') ->
+Lemma close_group_ok bc : forall fs t fs' t', frames_ok fs -> pfix (aflag fs) t -> close_group bc fs t = Some (fs', t') ->
   frames_ok fs' /\ pfix (aflag fs') t'.
 Proof.
   induction fs as [|f r IH]; intros t fs' t' Hf Ht Hp; cbn [close_group] in Hp; [discriminate|].
-  destruct f as [i d k l|i d k|i k].
+  destruct f as [i d k l|i d k|b i k].
   - apply (IH _ _ _ (proj2 Hf) (plug_ok _ _ _ Hf Ht) Hp).
   - apply (IH _ _ _ (proj2 Hf) (plug_ok _ _ _ Hf Ht) Hp).
-  - injection Hp as <- <-. split; [exact (proj2 Hf)|]. exact (plug_ok (FGroup i k) r t Hf Ht).
+  - destruct (bkind_eqb b bc); [|discriminate Hp]. injection Hp as <- <-. split; [exact (proj2 Hf)|]. exact (plug_ok (FGroup b i k) r t Hf Ht).
 Qed.
 
 Lemma close_ok : forall fs t, frames_ok fs -> pfix (aflag fs) t -> pfix false (close fs t).
@@ -149,7 +149,7 @@ Qed.
 Lemma spine_step_ok it n st st' : item_noprop it -> state_ok st -> spine_step it n st = Some st' -> state_ok st'.
 Proof.
   intros Hit [Hf Ht] Hs. destruct st as [fs ot]. cbn [fst snd] in *.
-  destruct it as [d k|d k|d k|d k|k|k]; destruct ot as [t|]; cbn [spine_step] in Hs; try discriminate Hs.
+  destruct it as [d k|d k|d k|d k|b k|b k]; destruct ot as [t|]; cbn [spine_step] in Hs; try discriminate Hs.
   - injection Hs as <-. split; [exact Hf|]. cbn [fst snd pfix]. apply atom_store_ok. exact Hit.
   - destruct (ref_rank d); [|discriminate]. injection Hs as <-. split; cbn [fst snd frames_ok]; auto.
   - destruct (ref_rank d); [|discriminate]. destruct (pop d fs t) as [fs' t'] eqn:Ep. injection Hs as <-.
@@ -157,8 +157,8 @@ Proof.
   - destruct (ref_rank d); [|discriminate]. destruct (pop d fs t) as [fs' t'] eqn:Ep. injection Hs as <-.
     destruct (pop_ok _ _ _ _ _ Hf Ht Ep) as [Hf' Ht']. split; cbn [fst snd frames_ok]; auto.
   - injection Hs as <-. split; cbn [fst snd frames_ok]; auto.
-  - destruct (close_group fs t) as [[fs' t']|] eqn:Ec; [|discriminate]. injection Hs as <-.
-    destruct (close_group_ok _ _ _ _ Hf Ht Ec) as [Hf' Ht']. split; cbn [fst snd]; auto.
+  - destruct (close_group b fs t) as [[fs' t']|] eqn:Ec; [|discriminate]. injection Hs as <-.
+    destruct (close_group_ok _ _ _ _ _ Hf Ht Ec) as [Hf' Ht']. split; cbn [fst snd]; auto.
 Qed.
 
 Lemma spine_run_ok : forall its n st st', Forall item_noprop its -> state_ok st -> spine_run its n st = Some st' -> state_ok st'.
@@ -307,7 +307,7 @@ Proof.
       (destruct T as [| | |i d k tl tr|]; try discriminate E; cbn [erase] in E; injection E as Ed Ek El Er; destruct Pf as [Pl Pr];
        subst d; split; [reflexivity|]; split; [exact Ek|]; split; [eapply IHe1; eauto|eapply IHe2; eauto]).
   - cbn [rtree_of_expr rep acc_ok] in *.
-    destruct T as [| | | |i k a]; try discriminate E. cbn [erase] in E. injection E as Ek Ea. cbn [pfix] in Pf.
+    destruct T as [| | | |b i k a]; try discriminate E. cbn [erase] in E. injection E as Eb Ek Ea. subst b. cbn [pfix] in Pf.
     split; [exact Ek|]. eapply IHe; eauto.
   - cbn [rtree_of_expr rep acc_ok] in *. apply andb_true_iff in A. destruct A as [A1 A2].
     destruct T as [| | |i d k tl tr|]; try discriminate E. cbn [erase] in E. injection E as Ed Ek El Er. destruct Pf as [Pl Pr].
